@@ -6,7 +6,7 @@
 (* windows and stage-skipping rules of the code separate exactly the files that differ.                    *)
 EXTENDS Grouping
 
-CONSTANTS NP, Lens, PLen, PMin, SLen, TLen, Kinds, Rfs, Isos, Skips, Bads, Longs, RootSet
+CONSTANTS NP, Lens, PLen, PMin, SLen, TLen, Kinds, Rfs, Isos, Skips, Bads, Longs, RootSet, Transforms
 
 Pow2(n) == 2 ^ n
 \* bytes of an identity: zero everywhere except a 1 at offset flip (0 = no flip)
@@ -17,17 +17,24 @@ Enc(flip, from, to) == LET S == {i \in from..to : Byte(flip, i) = 1} IN
 PK(len, flip) == IF len <= PLen THEN Enc(flip, 1, len) ELSE Enc(flip, 1, Min2(PMin, len))
 SK(len, flip) == Enc(flip, len - Min2(SLen, len) + 1, len)
 CK(len, flip) == Enc(flip, 1, len)
+\* transform programs over the byte strings: "none" (no --transform), "keep" (cat), "head" (first 2 bytes), "tail" (all but the first 2)
+TFrom(tr, len) == IF tr = "tail" THEN Min2(3, len + 1) ELSE 1
+TTo(tr, len) == IF tr = "head" THEN Min2(2, len) ELSE len
+TLenOf(tr, len) == Max2(0, TTo(tr, len) - TFrom(tr, len) + 1)
+TK(tr, len, flip) == IF TLenOf(tr, len) = 0 THEN 0 ELSE Enc(flip, TFrom(tr, len), TTo(tr, len))
 
 \* restricted-growth identity maps: path f is a link of an identity introduced no later than f
 InoMaps == {m \in [1..NP -> 1..NP] : \A f \in 1..NP : m[f] <= 1 + (IF f = 1 THEN 0 ELSE Max({m[g] : g \in 1..(f - 1)}))}
-Empty == [files |-> <<>>, cfg |-> [kind |-> "over", rf |-> 1, isolate |-> FALSE, matchLinks |-> FALSE, skipContent |-> FALSE, P |-> PLen, T |-> TLen],
-          bad |-> {}, L |-> 0, inos |-> <<>>]
+Empty == [files |-> <<>>, cfg |-> [kind |-> "over", rf |-> 1, isolate |-> FALSE, matchLinks |-> FALSE, skipContent |-> FALSE, transform |-> FALSE, P |-> PLen, T |-> TLen],
+          bad |-> {}, L |-> 0, inos |-> <<>>, tr |-> "none"]
 
 MCInit == /\ inp = Empty /\ stage = "pick1" /\ phase = "begin" /\ groups = {} /\ todo = {} /\ got = {} /\ pass = {} /\ failed = {}
 Pick1 == /\ stage = "pick1"
-         /\ \E k \in Kinds, rf \in Rfs, iso \in Isos, ml \in BOOLEAN, sc \in Skips, L \in Lens, m \in InoMaps :
-               inp' = [Empty EXCEPT !.cfg = [kind |-> k, rf |-> rf, isolate |-> iso, matchLinks |-> ml, skipContent |-> sc, P |-> PLen, T |-> TLen],
-                                    !.L = L, !.inos = m]
+         /\ \E k \in Kinds, rf \in Rfs, iso \in Isos, ml \in BOOLEAN, sc \in Skips, L \in Lens, m \in InoMaps, tr \in Transforms :
+               /\ (tr # "none" => ~sc)
+               /\ inp' = [Empty EXCEPT !.cfg = [kind |-> k, rf |-> rf, isolate |-> iso, matchLinks |-> ml, skipContent |-> sc, transform |-> (tr # "none"),
+                                                P |-> PLen, T |-> TLen],
+                                       !.L = L, !.inos = m, !.tr = tr]
          /\ stage' = "pick2" /\ UNCHANGED <<phase, groups, todo, got, pass, failed>>
 Pick2 == /\ stage = "pick2"
          /\ \E flips \in [1..NP -> 0..(inp.L + 1)], long \in Longs, roots \in [1..NP -> IF inp.cfg.isolate THEN RootSet ELSE {0}], bad \in Bads :
@@ -36,9 +43,12 @@ Pick2 == /\ stage = "pick2"
                /\ \A i \in 1..NP : (i \notin {inp.inos[f] : f \in 1..NP}) => flips[i] = 0         \* unused identities: one representative
                /\ inp' = [inp EXCEPT !.files = [f \in 1..NP |-> LET i == inp.inos[f] IN
                                                   [ino |-> i, root |-> roots[f], len |-> lenOf(i), pk |-> PK(lenOf(i), flips[i]),
-                                                   sk |-> SK(lenOf(i), flips[i]), ck |-> CK(lenOf(i), flips[i])]],
+                                                   sk |-> SK(lenOf(i), flips[i]), ck |-> CK(lenOf(i), flips[i]),
+                                                   tlen |-> TLenOf(inp.tr, lenOf(i)), tk |-> TK(inp.tr, lenOf(i), flips[i])]],
                                      !.bad = bad]
-         /\ stage' = "size" /\ UNCHANGED <<phase, groups, todo, got, pass, failed>>
+         /\ stage' = (IF inp.cfg.transform THEN "transform" ELSE "size")
+         /\ groups' = (IF inp.cfg.transform THEN {[len |-> 0, hash |-> {}, files |-> 1..NP]} ELSE {})
+         /\ UNCHANGED <<phase, todo, got, pass, failed>>
 MCNext == Pick1 \/ Pick2 \/ Next0
 MCSpec == MCInit /\ [][MCNext]_vars
 
